@@ -97,9 +97,9 @@ Proof.
   - intros _. reflexivity.
   - intros w _. destruct w; reflexivity.
   - intros _. exact I.
-  - intros _. split; [discriminate|constructor].
+  - intros _. split; [reflexivity|constructor].
   - intros s _ _. exact I.
-  - intros s _ _. split; [discriminate|constructor].
+  - intros s _ _. split; [reflexivity|constructor].
   - intros l HF Hb. cbn [default_value]. rewrite has_tuple_eq. cbn [inhabited_b] in Hb.
     induction HF as [|x l Hx _ IH]; [exact I|].
     cbn [forallb] in Hb. apply andb_true_iff in Hb. destruct Hb as [Hb1 Hb2].
